@@ -7,7 +7,11 @@ S1  TLC checks specs/C10/MCKmer.tla: rolling k-mer codes = definition, k-mer mas
 S2  every (input, expected) state of that model is executed against biotite: KmerAlphabet,
     KmerTable and BucketKmerTable built in six ways, match / match_table / match_kmer_selection /
     count / lookup / get_kmers / iteration / pickling, Minimizer / Syncmer / CachedSyncmer /
-    Mincode selectors without and with FrequencyPermutation.
+    Mincode selectors without and with FrequencyPermutation.  Families added by the
+    strengthening round: "similar" (every symmetric score matrix over a value set x every
+    threshold -> ScoreThresholdRule.similar_kmers of every k-mer, match / match_table on a table
+    holding every k-mer once), table group 5 and "seltab" (reference ids, stored positions and
+    given positions are uint32 labels at the limits of every width, 2^w - 1 / 2^w, 2^32 - 1).
 S3  seeded sessions on longer sequences, larger alphabets (incl. k-mer codes beyond 32 bit),
     more references, random masks, RandomPermutation orders are recorded and re-computed by TLC
     (specs/C10/Trace.tla).
@@ -93,6 +97,42 @@ def kmer_of(code, A, k):
     return out[::-1]
 
 
+# ---- labels: reference ids / explicit positions are uint32 labels; the specification writes a
+# label beyond TLC's integers as <<"u32", hi, lo>> (KmerIndex!U32).  Trusted concretisation,
+# like code_of / kmer_of.
+def is_label(x):
+    return isinstance(x, (list, tuple)) and len(x) == 3 and x[0] == "u32"
+
+
+def unlabel(x):
+    """label or plain integer -> Python int"""
+    return (int(x[1]) << 16) + int(x[2]) if is_label(x) else int(x)
+
+
+def delabel(x):
+    """Replace every label inside a parsed TLC value by its integer."""
+    if is_label(x):
+        return unlabel(x)
+    if isinstance(x, dict):
+        return {k: delabel(v) for k, v in x.items()}
+    if isinstance(x, (list, tuple)):
+        return [delabel(v) for v in x]
+    return x
+
+
+def enlabel(n):
+    """Integer reported by the real code -> label.  A value outside 0..2^32-1 (which no correct
+    table can report) becomes a label outside Dom_Label, different from every valid one."""
+    n = int(n)
+    if 0 <= n < 2 ** 32:
+        return ["u32", n >> 16, n & 0xFFFF]
+    return ["u32", 65536 + ((n >> 16) & 0xFFFF), n & 0xFFFF]
+
+
+def _lab_cols(rows, cols):
+    return [[enlabel(v) if i in cols else v for i, v in enumerate(r)] for r in rows]
+
+
 def mask_arg(om, n=None):
     np = _np()
     if om is None or len(om) == 0:
@@ -106,7 +146,8 @@ def rule_arg(rule, A):
     if rule is None or len(rule) == 0:
         return None
     r = rule[0]
-    M = align.SubstitutionMatrix(alphabet(A), alphabet(A), np.array(r["M"], dtype=np.int32))
+    n = len(r["M"])     # the matrix may be defined over a larger alphabet that extends the table's
+    M = align.SubstitutionMatrix(alphabet(n), alphabet(n), np.array(r["M"], dtype=np.int32))
     return align.ScoreThresholdRule(M, int(r["t"]))
 
 
@@ -126,7 +167,7 @@ def build_from_sequences(A, sp, refs, nb):
     """nb = 0: KmerTable, else BucketKmerTable with nb buckets."""
     cls = table_class(nb)
     seqs = [mkseq(A, r["seq"]) for r in refs]
-    ids = [int(r["id"]) for r in refs]
+    ids = [unlabel(r["id"]) for r in refs]
     masks = [mask_arg(r["mask"]) for r in refs]
     kw = {"ref_ids": ids, "spacing": spacing_arg(sp), "alphabet": alphabet(A)}
     if any(m is not None for m in masks):
@@ -500,7 +541,106 @@ def run_select(inp, exp):
     return mism, calls
 
 
-RUNNERS = {"kmers": run_kmers, "mask": run_mask, "table": run_table, "mini": run_mini, "select": run_select}
+def run_similar(inp, exp):
+    """ScoreThresholdRule over an arbitrary symmetric matrix: similar_kmers of every k-mer, and
+    match / match_table of a table that holds every k-mer exactly once."""
+    _, align = _mods()
+    A, k = inp["A"], inp["k"]
+    sp = list(range(k))
+    rule_spec = [{"M": inp["M"], "t": inp["t"]}]
+    ka = kmer_alphabet(A, sp)
+    mism, calls = [], 0
+    made = _call(lambda: rule_arg(rule_spec, A))
+    if made[0] != "ok":
+        return [_mm("similar", "rule", inp, {}, "ok", made)], 1
+    rule = made[1]
+    for km, want in zip(exp["kmers"], exp["sim"]):
+        wantc = sorted(code_of(b, A) for b in want)
+        obs = _call(lambda: [int(x) for x in rule.similar_kmers(ka, code_of(km, A)).tolist()])
+        calls += 1
+        if not (obs[0] == "ok" and sorted(obs[1]) == wantc and len(set(obs[1])) == len(obs[1])):
+            mism.append(_mm("similar", "similar_kmers", inp, {"kmer": km}, wantc, obs))
+    for nb in (0, 3):
+        t = _call(lambda: build_from_sequences(A, sp, exp["refs"], nb))
+        calls += 1
+        if t[0] != "ok":
+            mism.append(_mm("similar", "build", inp, {"nb": nb}, "ok", t))
+            continue
+        for op, args, want in (("match", {"q": exp["refs"][0]["seq"], "mask": [], "rule_spec": rule_spec}, exp["match"]),
+                               ("match_table", {"other": exp["other"], "rule_spec": rule_spec}, exp["tmatch"])):
+            obs = table_query(t[1], A, sp, nb, op, args)
+            calls += 1
+            if not query_agrees(op, want, obs):
+                mism.append(_mm("similar", op, inp, dict(args, nb=nb, refs=exp["refs"]), want, obs))
+    return mism, calls
+
+
+def build_sel(A, sp, positions, arrays, ids, nb):
+    """from_kmer_selection with explicit positions (labels already turned into integers)."""
+    np = _np()
+    kw = {"ref_ids": [int(i) for i in ids]}
+    if nb:
+        kw["n_buckets"] = nb
+    return table_class(nb).from_kmer_selection(
+        kmer_alphabet(A, sp), [np.array(p, dtype=np.uint32) for p in positions],
+        [np.array([code_of(km, A) for km in arr], dtype=np.int64) for arr in arrays], **kw)
+
+
+def build_seltab(A, sp, how, nb, inp, T):
+    if how == "selection":
+        return build_sel(A, sp, inp["pos"], inp["arrays"], inp["ids"], nb)
+    if how == "tables":
+        return table_class(nb).from_tables([build_sel(A, sp, [p], [a], [i], nb)
+                                            for p, a, i in zip(inp["pos"], inp["arrays"], inp["ids"])])
+    if how == "positions":
+        return build_from_positions(A, sp, T)
+    if how == "pickle":
+        return pickle.loads(pickle.dumps(build_sel(A, sp, inp["pos"], inp["arrays"], inp["ids"], nb)))
+    raise ValueError(how)
+
+
+def seltab_query(t, A, sp, nb, op, args):
+    if op == "match_table":
+        o = args["other"]
+        return _call(lambda: _rows(t.match_table(build_sel(A, sp, o["pos"], o["arrays"], o["ids"], nb))))
+    return table_query(t, A, sp, nb, op, args)
+
+
+def run_seltab(inp, exp):
+    """Tables made from k-mer selections / explicit positions whose ids and positions are labels."""
+    A, k = inp["A"], inp["k"]
+    sp = list(range(k))
+    T = sorted(exp["T"])
+    all_kmers = [km for km, _c in exp["codes"]]
+    present = sorted(code_of(km, A) for km in exp["present"])
+    mism, calls = [], 0
+    for nb in (0,) + BUCKETS:
+        for how in ("selection", "tables", "positions", "pickle"):
+            if how == "positions" and nb:
+                continue
+            org = {"nb": nb, "built": how, "T": T if how == "positions" else None}
+            r = _call(lambda: build_seltab(A, sp, how, nb, inp, T))
+            calls += 1
+            if r[0] != "ok":
+                mism.append(_mm("seltab", "build", inp, org, T, r))
+                continue
+            t = r[1]
+            c = safe_content(t, A, k)
+            if c != T:
+                mism.append(_mm("seltab", "build", inp, org, T, c))
+            queries = [("count", {"kmers": all_kmers}, exp["counts"]), ("get_kmers", {}, present),
+                       ("match_kmer_selection", {"pos": exp["sel"]["pos"], "kmers": exp["sel"]["kmers"]}, exp["sel"]["out"]),
+                       ("match_table", {"other": exp["other"]}, exp["tmatch"])]
+            queries += [("lookup", {"kmer": km}, want) for km, want in zip(all_kmers, exp["lookups"])]
+            for op, args, want in queries:
+                obs = seltab_query(t, A, sp, nb, op, args)
+                calls += 1
+                if not query_agrees(op, want, obs):
+                    mism.append(_mm("seltab", op, inp, dict(args, table=org), want, obs))
+    return mism, calls
+
+
+RUNNERS = {"similar": run_similar, "seltab": run_seltab, "kmers": run_kmers, "mask": run_mask, "table": run_table, "mini": run_mini, "select": run_select}
 
 
 def warmup():
@@ -527,6 +667,10 @@ def _nontrivial(kind, inp, exp):
         return int(exp["plain"]["oc"] == "ok" and 1 < len(exp["plain"]["out"]["pos"]) < len(inp["row"]) - inp["w"] + 1)
     if kind == "kmers":
         return int(exp["r"]["oc"] == "ok" and exp["n"] >= 2)
+    if kind == "similar":
+        return int(exp["proper"])
+    if kind == "seltab":
+        return int(len(exp["present"]) < len(exp["T"]))
     if kind == "mask":
         return int(0 < len(exp["kept"]) < exp["n"])
     return int(not exp["short3"])
@@ -545,9 +689,15 @@ def exec_states(item):
         if 'kind = "root"' in block or 'kind = "chunk"' in block:
             continue
         st = {k: to_py(v) for k, v in parse_state(block).items()}
-        kind, inp, exp = st["kind"], st["inp"], st["exp"]
+        kind, inp, exp = st["kind"], delabel(st["inp"]), delabel(st["exp"])
         nstates += 1
         counts[kind] = counts.get(kind, 0) + 1
+        if kind == "similar" and exp["wild"] and exp["proper"]:
+            counts["similar:wildcard"] = counts.get("similar:wildcard", 0) + 1
+        if kind == "seltab" or (kind == "table" and inp.get("lab")):
+            ids = inp["ids"] if kind == "seltab" else [r["id"] for r in inp["refs"]]
+            if max(ids) >= 2 ** 31:
+                counts["label>=2^31"] = counts.get("label>=2^31", 0) + 1
         nontriv += _nontrivial(kind, inp, exp)
         progress({"family": kind, "inp": inp})
         mm, c = RUNNERS[kind](inp, exp)
@@ -572,13 +722,45 @@ def _rand_mask(rng, n):
 
 
 def _rand_rule(rng, A):
+    """Symmetric integer matrix.  Half of the rules are diagonally dominant (the usual shape of a
+    substitution matrix), the other half are arbitrary: a symbol may score higher with another
+    symbol than with itself (wildcard-like rows), diagonal entries may be negative; sometimes the
+    matrix is defined over a larger alphabet than the table's."""
     if A > 5:
         return []
-    M = [[0] * A for _ in range(A)]
-    for i in range(A):
-        for j in range(i, A):
-            M[i][j] = M[j][i] = rng.randint(2, 5) if i == j else rng.randint(-3, 2)
-    return [{"M": M, "t": rng.randint(0, 9)}]
+    n = A + 1 if rng.random() < 0.2 else A
+    free = rng.random() < 0.5
+    M = [[0] * n for _ in range(n)]
+    for i in range(n):
+        for j in range(i, n):
+            if free:
+                M[i][j] = M[j][i] = rng.randint(-3, 5)
+            else:
+                M[i][j] = M[j][i] = rng.randint(2, 5) if i == j else rng.randint(-3, 2)
+    return [{"M": M, "t": rng.randint(-2, 9) if free else rng.randint(0, 9)}]
+
+
+# uint32 labels at the limits of every width (KmerIndex!BoundaryLabels)
+LABEL_LIMITS = [0, 127, 128, 255, 256, 32767, 32768, 65535, 65536, 2 ** 31 - 1, 2 ** 31, 2 ** 32 - 1]
+
+
+def _rand_label(rng):
+    x = rng.random()
+    if x < 0.35:
+        return rng.randrange(40)
+    if x < 0.8:
+        return rng.choice(LABEL_LIMITS)
+    return rng.randrange(2 ** 32)
+
+
+def _rand_labels(rng, m):
+    """m distinct labels"""
+    out = []
+    while len(out) < m:
+        v = _rand_label(rng)
+        if v not in out:
+            out.append(v)
+    return out
 
 
 def gen_trace(item):
@@ -598,7 +780,7 @@ def gen_trace(item):
         span = sp[-1] + 1
         nb = rng.choice([1, 2, 3, 7, 11, 50]) if (big or rng.random() < 0.6) else 0
         nref = rng.randint(1, 4)
-        ids = rng.sample(range(0, 40), nref)
+        ids = _rand_labels(rng, nref)     # reference ids are free uint32 labels
         sym = (lambda: rng.choice([0, 1, A - 1, A - 2, rng.randrange(A)])) if big else (lambda: rng.randrange(A))
         refs = []
         for i in range(nref):
@@ -606,7 +788,7 @@ def gen_trace(item):
             s = [sym() for _ in range(n)]
             if rng.random() < 0.4 and n > 3:      # repeats
                 s[n // 2:] = s[: n - n // 2]
-            refs.append({"id": ids[i], "seq": s, "mask": _rand_mask(rng, n)})
+            refs.append({"id": enlabel(ids[i]), "seq": s, "mask": _rand_mask(rng, n)})
         subject = {"op": "table", "A": A, "sp": sp, "refs": refs, "nb": nb, "spaced": spacing_arg(sp) is not None}
         progress({"family": "s3", "op": "table", "inp": subject})
         b = _call(lambda: build_from_sequences(A, sp, refs, nb))
@@ -618,6 +800,7 @@ def gen_trace(item):
         if c and c[0] == "unreadable":
             subject.update(oc="Unreadable", out=[])
             return {"events": [subject]}
+        c = _lab_cols(c, (1,))
         subject.update(oc="ok", out=c)
         ev.append(subject)
         # (with spaced k-mers and a mask the table may be wrong through the known spaced-mask
@@ -640,8 +823,8 @@ def gen_trace(item):
                     q = q[:n]
                 e.update(q=q, mask=_rand_mask(rng, len(q)), rule=_rand_rule(rng, A) if rng.random() < 0.4 else [])
                 progress({"family": "s3", "op": op, "inp": subject, "args": e})
-                r = _call(lambda: _rows(t.match(mkseq(A, q), similarity_rule=rule_arg(e["rule"], A),
-                                                ignore_mask=mask_arg(e["mask"]))))
+                r = _call(lambda: _lab_cols(_rows(t.match(mkseq(A, q), similarity_rule=rule_arg(e["rule"], A),
+                                                          ignore_mask=mask_arg(e["mask"]))), (1,)))
             elif op == "count":
                 kms = [rng.choice(pool_kmers) if rng.random() < 0.7 else [sym() for _ in range(k)]
                        for _ in range(rng.randint(0, 5))]
@@ -651,26 +834,26 @@ def gen_trace(item):
                 km = rng.choice(pool_kmers) if rng.random() < 0.8 else [sym() for _ in range(k)]
                 e.update(kmer=km, big=bool(code_of(km, A) >= 2 ** 32), bucketed=bool(nb))
                 progress({"family": "s3", "op": op, "inp": subject, "args": e})
-                r = _call(lambda: _rows(t[code_of(km, A)]))
+                r = _call(lambda: _lab_cols(_rows(t[code_of(km, A)]), (0,)))
             elif op == "get_kmers":
                 r = _call(lambda: [kmer_of(int(c), A, k) for c in t.get_kmers().tolist()])
             elif op == "match_table":
                 n = rng.randint(span, span + 6)
                 src = rng.choice(refs)["seq"]
-                o = [{"id": 90, "seq": (src[:n] if rng.random() < 0.5 and len(src) >= span else [sym() for _ in range(n)]),
+                o = [{"id": enlabel(_rand_label(rng)), "seq": (src[:n] if rng.random() < 0.5 and len(src) >= span else [sym() for _ in range(n)]),
                       "mask": []}]
                 if len(o[0]["seq"]) < span:
                     continue
                 e.update(other=o, rule=_rand_rule(rng, A) if rng.random() < 0.4 else [])
-                r = _call(lambda: _rows(t.match_table(build_from_sequences(A, sp, o, nb),
-                                                      similarity_rule=rule_arg(e["rule"], A))))
+                r = _call(lambda: _lab_cols(_rows(t.match_table(build_from_sequences(A, sp, o, nb),
+                                                                similarity_rule=rule_arg(e["rule"], A))), (0, 2)))
             else:
                 m = rng.randint(0, 5)
                 kms = [rng.choice(pool_kmers) if rng.random() < 0.7 else [sym() for _ in range(k)] for _ in range(m)]
-                pos = rng.sample(range(0, 60), m)
-                e.update(pos=pos, kmers=kms)
-                r = _call(lambda: _rows(t.match_kmer_selection(
-                    np.array(pos, dtype=np.uint32), np.array([code_of(km, A) for km in kms], dtype=np.int64))))
+                pos = _rand_labels(rng, m)    # the given positions are free uint32 labels as well
+                e.update(pos=[enlabel(x) for x in pos], kmers=kms)
+                r = _call(lambda: _lab_cols(_rows(t.match_kmer_selection(
+                    np.array(pos, dtype=np.uint32), np.array([code_of(km, A) for km in kms], dtype=np.int64))), (0, 1)))
             e["oc"] = r[0]
             e["out"] = r[1] if r[0] == "ok" else []
             ev.append(e)
@@ -811,17 +994,19 @@ def run(ctx):
     ctx.assumptions += [
         "Dom_Refs: reference ids of one table are distinct (the table is a set of (k-mer, ref, pos), results are compared as sets without duplicates)",
         "Dom_Mask: an ignore mask has the length of its sequence; Dom_Spacing: strictly increasing non-negative offsets, k >= 2",
-        "Dom_Rule: ScoreThresholdRule over a symmetric integer matrix on the table's alphabet; other SimilarityRule classes are not modelled",
+        "Dom_Rule: ScoreThresholdRule over a symmetric integer matrix on the table's alphabet or on a larger alphabet that extends it (no assumption on the entries: the row maximum may lie off the diagonal); other SimilarityRule classes are not modelled",
+        "Dom_Label: reference ids, positions stored through from_kmer_selection / from_positions and positions given to match_kmer_selection are integers 0..2^32-1 (the documented uint32); positions of k-mers taken from sequences are small",
         "Dom_Selection: (position, k-mer) pairs given to match_kmer_selection are distinct",
         "sequences shorter than the k-mer span: an exception or an empty result are both accepted",
         "row order of match results is not compared (the property speaks of the set of triples)",
         "table equality (==) is only required after pickling; it is order-sensitive in the code and not part of the property",
         "selectors: integer compression factors for MincodeSelector; RandomPermutation only through the order of the keys it returns (its 64-bit arithmetic is not modelled)",
-        "exhaustive model: alphabets of 2-3 symbols, k in {2,3}, spans <= 5, references <= 5 symbols, buckets {1,2,3,7}; larger cases only through recorded sessions",
+        "exhaustive model: alphabets of 2-3 symbols, k in {2,3}, spans <= 5, references <= 5 symbols, buckets {1,2,3,7}, score matrices with entries from small value sets, the 12 labels 0, 2^w-1, 2^w (w = 7, 8, 15, 16, 31), 2^32-1; larger cases only through recorded sessions",
         "trusted: TLC, the TLA+ value parser, numpy, the mapping k-mer tuple <-> k-mer code (radix A), construction of sequences from symbol codes",
     ]
     ctx.cov["rule"] = ("non-trivial = table with >= 2 entries and a repeated k-mer; minimizer row where some but not "
-                       "all windows share their minimizer; mask that drops some but not all k-mers; sequence with >= 2 k-mers")
+                       "all windows share their minimizer; mask that drops some but not all k-mers; sequence with >= 2 k-mers; "
+                       "score rule under which some k-mer has a proper non-empty neighbourhood")
     d = tlc.scratch_dir("c10")
     prefix = os.path.join(d, "states")
     cfg = "MC.cfg" if quick else "MC_thorough.cfg"
@@ -842,7 +1027,15 @@ def run(ctx):
         ctx.nontrivial += r.get("nontrivial", 0)
         for k, v in r.get("kinds", {}).items():
             kinds[k] = kinds.get(k, 0) + v
+    wild = kinds.pop("similar:wildcard", 0)
+    biglab = kinds.pop("label>=2^31", 0)
     ctx.cov["s2_states_per_family"] = kinds
+    ctx.cov["s2_similar_states_row_maximum_off_diagonal"] = wild
+    ctx.cov["s2_label_states_with_id_ge_2^31"] = biglab
+    if not wild:
+        raise Vacuity("similar family: no score matrix whose row maximum lies off the diagonal (with a proper neighbourhood) was executed")
+    if not biglab:
+        raise Vacuity("label families: no table with a reference id >= 2^31 was executed")
     ctx.cov["s2_real_calls"] = calls
     ctx.traces_validated += done
     ctx.evaluations += calls
@@ -886,6 +1079,11 @@ def run(ctx):
             ops[e["op"]] = ops.get(e["op"], 0) + 1
     ctx.cov["s3_events_per_op"] = ops
     ctx.cov["s3_big_alphabet_lookups"] = sum(1 for t in traces for e in t if e["op"] == "lookup" and e.get("big"))
+    ctx.cov["s3_tables_with_id_ge_2^31"] = sum(1 for t in traces if t[0]["op"] == "table"
+                                               and any(unlabel(r["id"]) >= 2 ** 31 for r in t[0]["refs"]))
+    ctx.cov["s3_rules_row_maximum_off_diagonal"] = sum(
+        1 for t in traces for e in t
+        if e.get("rule") and any(max(row) > row[i] for i, row in enumerate(e["rule"][0]["M"])))
     ctx.sample({"s3_events": traces[0][:2]})
     for m in mms:
         tid, l = m[1], m[2]
@@ -950,6 +1148,35 @@ def replay(record):
             return {"mismatch": bool(mm), "details": mm[:1]}
         if fam == "select":
             return _replay_select(inp, op, args, exp)
+        if fam == "similar":
+            A, k = inp["A"], inp["k"]
+            sp = list(range(k))
+            rule_spec = [{"M": inp["M"], "t": inp["t"]}]
+            if op == "rule":
+                obs = _call(lambda: rule_arg(rule_spec, A))
+                return {"observed": obs[0], "expected": exp, "mismatch": obs[0] != "ok"}
+            if op == "similar_kmers":
+                obs = _call(lambda: [int(x) for x in rule_arg(rule_spec, A).similar_kmers(
+                    kmer_alphabet(A, sp), code_of(args["kmer"], A)).tolist()])
+                bad = not (obs[0] == "ok" and sorted(obs[1]) == exp and len(set(obs[1])) == len(obs[1]))
+                return {"observed": obs, "expected": exp, "mismatch": bad}
+            t = _call(lambda: build_from_sequences(A, sp, args.get("refs", []), args["nb"]))
+            if op == "build" or t[0] != "ok":
+                return {"observed": t[0], "expected": "ok", "mismatch": t[0] != "ok"}
+            obs = table_query(t[1], A, sp, args["nb"], op, args)
+            return {"observed": obs, "expected": exp, "mismatch": not query_agrees(op, exp, obs)}
+        if fam == "seltab":
+            A, k = inp["A"], inp["k"]
+            sp = list(range(k))
+            org = args if op == "build" else args["table"]
+            t = _call(lambda: build_seltab(A, sp, org["built"], org["nb"], inp, org.get("T")))
+            if op == "build":
+                obs = safe_content(t[1], A, k) if t[0] == "ok" else t
+                return {"observed": obs, "expected": exp, "mismatch": obs != sorted(exp)}
+            if t[0] != "ok":
+                return {"error": f"table cannot be built any more: {t}", "mismatch": True}
+            obs = seltab_query(t[1], A, sp, org["nb"], op, args)
+            return {"observed": obs, "expected": exp, "mismatch": not query_agrees(op, exp, obs)}
     if kind == "event":
         return _replay_event(record)
     return {"error": "unknown record", "record": record}
@@ -985,8 +1212,9 @@ def _replay_event(record):
     """Recorded call: execute it again on the recorded subject and compare with TLC's value."""
     _, align = _mods()
     np = _np()
-    e, subj = record["call"], record["subject"]
-    eoc, eout = record.get("expected_oc"), record.get("expected_out")
+    # labels (["u32", hi, lo]) of the recorded call and of TLC's value -> integers
+    e, subj = delabel(record["call"]), delabel(record["subject"])
+    eoc, eout = record.get("expected_oc"), delabel(record.get("expected_out"))
     if subj["op"] == "table":
         A, sp, nb = subj["A"], subj["sp"], subj["nb"]
         k = len(sp)
@@ -1028,7 +1256,7 @@ def _replay_event(record):
 
 
 MANIFEST = {
-    "technique": "TLA+ specification of k-mer decomposition, the abstract k-mer table with its bucket/merge/pickle refinement, similarity neighbourhoods and the minimizer/syncmer/mincode selectors (specs/C10), model-checked by TLC; every TLC state (input, expected) executed against KmerAlphabet/KmerTable/BucketKmerTable/selectors; recorded sessions re-computed by TLC",
-    "level_text": "TLC enumerates all sequences over 2-3 symbols (length <=6/4) under 8 spacing models, all ignore masks up to length 6, ~1,300 small reference sets (with masks, two references, k=2/3, spaced models) each with ~40 queries (masks, two score-threshold rules), all key rows of length <=5 (7 thorough) over 4 values with windows 2-4 and all short sequences for the selectors; it checks rolling codes, k-mer masks, branch-and-bound neighbourhoods, every query on bucketed/merged/pickled layouts against the set definition, van Herk = leftmost window minimum and the syncmer route. Every state is then run against the real classes: six builders x direct and 1/2/3/7 buckets, match/match_table/match_kmer_selection/count/lookup/get_kmers/iteration/pickle, four selectors with and without FrequencyPermutation. Longer sequences, 2-5 symbol and 2000-70000 symbol alphabets (k-mer codes beyond 2^32), up to 4 references, random masks/rules/buckets and RandomPermutation orders are covered by recorded sessions validated by TLC.",
+    "technique": "TLA+ specification of k-mer decomposition, the abstract k-mer table with its bucket/merge/pickle refinement, similarity neighbourhoods (exact for every symmetric score matrix), uint32 label transparency of ids/positions, and the minimizer/syncmer/mincode selectors (specs/C10), model-checked by TLC; every TLC state (input, expected) executed against KmerAlphabet/KmerTable/BucketKmerTable/selectors; recorded sessions re-computed by TLC",
+    "level_text": "TLC enumerates all sequences over 2-3 symbols (length <=6/4) under 8 spacing models, all ignore masks up to length 6, ~1,300 small reference sets (with masks, two references, k=2/3, spaced models) each with ~40 queries (masks, two score-threshold rules), all key rows of length <=5 (7 thorough) over 4 values with windows 2-4 and all short sequences for the selectors; every symmetric score matrix over small value sets (incl. rows whose maximum lies off the diagonal, matrices over a larger alphabet) with every threshold, and tables whose reference ids / stored positions / given positions are the uint32 labels at the limits of every width (0, 2^w-1, 2^w for w=7,8,15,16,31, 2^32-1); it checks rolling codes, k-mer masks, branch-and-bound neighbourhoods, every query on bucketed/merged/pickled layouts against the set definition, van Herk = leftmost window minimum and the syncmer route. Every state is then run against the real classes: six builders x direct and 1/2/3/7 buckets, match/match_table/match_kmer_selection/count/lookup/get_kmers/iteration/pickle, four selectors with and without FrequencyPermutation. Longer sequences, 2-5 symbol and 2000-70000 symbol alphabets (k-mer codes beyond 2^32), up to 4 references with random uint32 ids, random masks/rules (also not diagonally dominant)/buckets and RandomPermutation orders are covered by recorded sessions validated by TLC.",
     "level_note": "Bounded model checking plus conformance on recorded executions, not proof. Similarity rules other than ScoreThresholdRule, non-integer compression factors, the 64-bit LCG of RandomPermutation (only the order it yields), row order of matches and table equality beyond pickling are not decided. Tables with repeated reference ids (bags) are outside the domain. Three defects in .pyx files are listed known findings (Cython is unavailable).",
 }
